@@ -78,6 +78,7 @@ func mhGen(c *hx.Ctx) {
 		}
 		c.Emit(op...)
 		mhPlanned = append(mhPlanned, mhPlan{op[1], meterx.ProgFromFields(op[2:5])})
+		c.Emit(append([]string{"sharedprog", engine}, op[2:5]...)...)
 	}
 }
 
@@ -252,6 +253,32 @@ func mhExec(op []string) string {
 			}
 		}
 		return "bad-op"
+	case "sharedprog":
+		// the host keeps checked / compiled contract programs across executions (GetOrLoadProgram cache):
+		// warm-up import, then the target twice from the same ledger state; first vs second run
+		if len(op) != 5 {
+			return "bad-op"
+		}
+		useVM := op[1] == "vm"
+		target := meterx.ProgFromFields(op[2:5])
+		w := meterx.Setup(useVM)
+		shared := meterx.NewSharedPrograms()
+		warm := meterx.Exec(w.Clone(), meterx.Prog{Kind: "script", Src: "import K0 from 0x1\nimport K1 from 0x1\naccess(all) fun main() {}"},
+			meterx.NewRec(mhCompLimit, 0, false), meterx.Options{UseVM: useVM, Seq: 5, Wrap: shared.Wrap()})
+		if warm.Status != "ok" || shared.Len() < 2 {
+			return "warmup-failed"
+		}
+		r1 := meterx.NewRec(mhCompLimit, mhMemLimit, true)
+		o1 := meterx.Exec(w.Clone(), target, r1, meterx.Options{UseVM: useVM, Seq: 7, Wrap: shared.Wrap()})
+		r2 := meterx.NewRec(mhCompLimit, mhMemLimit, true)
+		o2 := meterx.Exec(w.Clone(), target, r2, meterx.Options{UseVM: useVM, Seq: 7, Wrap: shared.Wrap()})
+		verdict := "same"
+		if o1.String() != o2.String() {
+			verdict = "diff:outcome first=" + o1.String() + " second=" + o2.String()
+		} else if d := meterx.MeterDiff(r1, r2); d != "" {
+			verdict = "meterdiff " + d
+		}
+		return fmt.Sprintf("%s ;; n=%d ;; %s", verdict, r1.N, o1.Short())
 	case "meterhist":
 		if len(op) < 5 || (len(op)-2)%3 != 0 {
 			return "bad-op"
